@@ -66,6 +66,131 @@ def parse_text_bytecode(text):
     return funcs
 
 
+PUSH1 = {"make_bool", "make_int", "make_float", "make_byte", "make_bigint", "make_str", "make_function", "make_object", "make_map", "load", "load_fast",
+         "load_callback", "arg", "stack_size", "delete_name_reference_scoped", "ld_self", "load_self_export", "reserve_primitive"}
+NEUTRAL = {"jmp", "jmp_pop", "done", "else_stmt", "printn", "export_name", "delete_name_scoped", "breakpoint", "stack_dump", "nop"}
+EQ1_TO0 = {"store", "store_fast", "store_object", "export_special", "assert"}
+EQ2_TO1 = {"equ", "neq", "mutate"}
+GE1_SAME = {"neg", "not", "unwrap", "unwrap_into", "split_lookup_store", "map_op", "lookup"}
+CALLS = {"call", "call_self", "call_object", "call_lib"}
+
+
+def operand_effect(name, args, lo, hi):
+    """-> (violation or None, [(successor kind, lo, hi)]) where kind is 'next' | 'jump' ; None successors = terminal.
+    Only DEFINITE violations (the whole interval misses the requirement) are reported."""
+    def need(minimum=None, exact=None):
+        if exact is not None and (hi < exact or lo > exact):
+            return "requires exactly %d operand(s), has %s" % (exact, "%d" % lo if lo == hi else "%d..%d" % (lo, hi))
+        if minimum is not None and hi < minimum:
+            return "requires at least %d operand(s), has at most %d" % (minimum, hi)
+        return None
+    if name in PUSH1:
+        return None, [("next", lo + 1, hi + 1)]
+    if name in NEUTRAL:
+        return None, [("both", lo, hi)]
+    if name == "make_vector":
+        return None, [("next", 1, 1)] if not args else [("next", lo + 1, hi + 1)]
+    if name == "pop":
+        return need(minimum=1), [("next", max(0, lo - 1), max(0, hi - 1))]
+    if name == "void":
+        return None, [("next", 0, 0)]
+    if name in EQ1_TO0:
+        return need(exact=1), [("next", 0, 0)]
+    if name == "store_skip":
+        return need(exact=1), [("next", 0, 0), ("jump", 1, 1)]
+    if name == "bin_op":
+        return need(minimum=2), [("next", 1, 1)]
+    if name in EQ2_TO1:
+        return need(exact=2), [("next", 1, 1)]
+    if name == "fast_rev2":
+        return need(exact=2), [("next", 2, 2)]
+    if name in GE1_SAME:
+        return need(minimum=1), [("next", max(1, lo), max(1, hi))]
+    if name == "vec_op":
+        a0 = args[0] if args else ""
+        if a0.startswith("+"):
+            return need(exact=1), [("next", 0, 0)]
+        if a0 == "mut":
+            return need(exact=2), [("next", 1, 1)]
+        return need(minimum=1), [("next", max(1, lo), max(1, hi))]
+    if name == "bin_op_assign":
+        if len(args) >= 2:
+            return need(minimum=1), [("next", max(1, lo), max(1, hi))]
+        return need(minimum=2), [("next", max(1, lo - 1), max(1, hi - 1))]
+    if name == "fast_map_insert":       # map and key come from registers; the value is popped
+        return need(minimum=1), [("next", max(0, lo - 1), max(0, hi - 1))]
+    if name == "ptr_mut":
+        return need(minimum=2), [("next", max(0, lo - 2), max(0, hi - 2))]
+    if name == "jmp_not_nil":
+        return need(minimum=1), [("next", max(0, lo - 1), max(0, hi - 1)), ("jump", max(1, lo), max(1, hi))]
+    if name in ("if_stmt", "while_loop"):
+        return need(minimum=1), [("both", 0, 0)]
+    if name in CALLS:
+        return None, [("next", 0, 1)]
+    if name == "module_entry":
+        return None, [("next", 1, 1)]
+    if name == "ret":
+        return ("ret with more than one operand (%d..%d)" % (lo, hi) if lo > 1 else None), None
+    if name == "ret_mod":
+        return None, None
+    return "UNKNOWN", [("both", lo, hi)]
+
+
+def analyse_operands(instrs):
+    """fixpoint over (ip -> operand-depth interval); returns the list of definite violations (empty when an opcode is unknown)"""
+    n = len(instrs)
+    state = {0: (0, 0)}
+    work = [0]
+    viol = []
+    seen_viol = set()
+    steps = 0
+    while work and steps < 20000:
+        steps += 1
+        ip = work.pop()
+        lo, hi = state[ip]
+        name, args = instrs[ip]
+        v, succs = operand_effect(name, args, lo, hi)
+        if v == "UNKNOWN":
+            return []
+        if v and ip not in seen_viol:
+            seen_viol.add(ip)
+            viol.append("instruction #%d (%s) %s" % (ip, name, v))
+        if succs is None:
+            continue
+        targets = []
+        try:
+            for kind, l2, h2 in succs:
+                if name in ("if_stmt", "while_loop"):
+                    targets += [(ip + 1, l2, h2), (ip + int(args[0]), l2, h2)]
+                elif name in ("jmp", "jmp_pop"):
+                    targets.append((ip + int(args[0]), l2, h2))
+                elif name == "jmp_not_nil":
+                    targets.append((ip + 1, l2, h2) if kind == "next" else (ip + int(args[0]), l2, h2))
+                elif name == "store_skip":
+                    targets.append((ip + 1, l2, h2) if kind == "next" else (ip + int(args[2]), l2, h2))
+                else:
+                    targets.append((ip + 1, l2, h2))
+        except (ValueError, IndexError):
+            continue
+        for t, l2, h2 in targets:
+            if t < 0 or t >= n:
+                continue
+            h2 = min(h2, 64)
+            l2 = min(l2, 64)
+            if t in state:
+                ol, oh = state[t]
+                nl, nh = min(ol, l2), max(oh, h2)
+                if (nl, nh) != (ol, oh):
+                    state[t] = (nl, nh)
+                    work.append(t)
+            else:
+                state[t] = (l2, h2)
+                work.append(t)
+    if any(h >= 64 for _, h in state.values()):
+        viol.append("the operand stack can grow without bound on some path")
+    return viol
+
+
 def analyse(instrs):
     """all-paths exploration of (ip, open block frames). -> (violations, states, max jmp_pop n, max depth at a return)"""
     n = len(instrs)
@@ -138,6 +263,8 @@ def a_wf(a, res, ctx):
             continue
         for fname, instrs in parse_text_bytecode(text).items():
             viol, states, max_pop, max_ret = analyse(instrs)
+            if not viol:
+                viol = ["operands: " + v for v in analyse_operands(instrs)]
             stats["functions"] += 1
             stats["states"] += states
             if max_pop >= 2 or max_ret >= 2:
@@ -185,7 +312,7 @@ def check(case):
         r.rejected = case["family"] != "corpus"
     if f:
         kinds = sorted(set(("falls-off" if "falls off" in x else "outside" if "outside the function" in x else "closes-too-many" if "closes more" in x
-                            else "depth-mismatch" if "open block frames" in x else "stack-mismatch" if "STACK MISMATCH" in x else "malformed") for x in f))
+                            else "operands" if "operands: " in x else "depth-mismatch" if "open block frames" in x else "stack-mismatch" if "STACK MISMATCH" in x else "malformed") for x in f))
         r.failure = fail("%s: %s" % (case.get("origin", case["family"]), "; ".join(f[:4])) + "\n" + files.get(entry, "")[-1200:], "C09:" + ",".join(kinds), sc,
                          case={"origin": case.get("origin", case["family"])})
     return r
